@@ -833,10 +833,11 @@ PROPS["C13"].update({
                   "(KStorage).  Quick tier, two concrete cases: a second sender with a mismatching buffer size is refused "
                   "as already connected without touching the attached sender's role (its detach then destroys the "
                   "resource exactly once); the sender detaching right after a mismatching receiver registered makes the "
-                  "refused attacher the last one out, which destroys the resource exactly once.  Thorough tier: all "
-                  "slices (drop orders, second attach, single role + re-create, every mismatching parameter, forced "
-                  "removal, attach racing the teardown before / after registration) and the unsliced harnesses with "
-                  "symbolic case selection.",
+                  "refused attacher the last one out, which destroys the resource exactly once.  Thorough tier adds the "
+                  "harnesses that were observed to finish: an attach racing the teardown before the port is registered "
+                  "(refused as being cleaned up) and forced removal of a dead peer with symbolic role / order.  Further "
+                  "slices (drop orders, second attach, single role + re-create, the other mismatching parameters) exist "
+                  "as tier 'extended' and are not claimed.",
     "level_note": "one connection, buffer 1 / borrow 1 / 1 chunk / 1 channel; every attach costs ~10 M SAT variables, so "
                   "the quick tier is two cases of ~19 min / 20 GB; the storage is a model of the DynamicStorage contract "
                   "(posix shared memory / files are outside); races are the two hook points of the storage model where "
